@@ -29,7 +29,8 @@ META = {
         'same objects on every call; (history) compile never reads the stored '
         'solution of an earlier calculation, so what it freezes comes from '
         'the model alone.'
-        ' (freeze) what is frozen is taken from the pre-evaluation, only for nodes without default, and the caller\'s lists are passed unchanged; (volatile) every pre-evaluation runs with the COMPILING flag set (= C13.sites).'),
+        ' (freeze) what is frozen is taken from the pre-evaluation, only for nodes without default, and the caller\'s lists are passed unchanged; (volatile) every pre-evaluation runs with the COMPILING flag set (= C13.sites).'
+        ' (invdata) the record of what an inverse range assembler sets names every one of its outputs; (self) sub-dispatchers of compile carry their own record under sh.SELF.'),
     'not_decided': (
         'Soundness of pruning by blockers for all argument values (branch, '
         'error and shape changes).'),
